@@ -63,7 +63,22 @@ pub fn oracle_files(ctx: &mut Ctx) {
                 // half of them in a container oxipng would write differently at the same size: two kept chunks
                 // in front of IDAT in the order `bKGD pHYs` (oxipng emits bKGD after the others) - still not
                 // improvable, but its re-serialisation is not byte-identical
-                if rng.bool() {
+                if rng.chance(1, 3) {
+                    // a third of them with an ICC profile under a one-letter name whose stream this run's own compressor
+                    // made: the profile cannot be recompressed smaller, and the chunk the optimiser would write ("icc" for
+                    // a name) is two bytes LONGER - the attempt is strictly larger than the input, not just no smaller
+                    if let Ok(chs) = crate::pngparse::parse_chunks(&case.input) {
+                        let profile: Vec<u8> = (0..600).map(|k| ((k * 7) % 23) as u8).collect();
+                        if let Ok(z) = verif::deflate_with_bound(case.opts.to_oxi().deflate, &profile, None) {
+                            let mut list: Vec<([u8; 4], Vec<u8>)> = chs.iter().map(|c| (c.name, c.data.clone())).collect();
+                            let mut d = b"a\0\0".to_vec();
+                            d.extend_from_slice(&z);
+                            list.insert(1, (*b"iCCP", d));
+                            case.input = crate::front::rebuild(&list);
+                            st.count("inputs_whose_rewrite_is_strictly_larger");
+                        }
+                    }
+                } else if rng.bool() {
                     if let (Ok(chs), Ok(d)) = (crate::pngparse::parse_chunks(&case.input), crate::pngparse::decode(&case.input)) {
                         let mut list: Vec<([u8; 4], Vec<u8>)> = chs.iter().map(|c| (c.name, c.data.clone())).collect();
                         if let Some(at) = list.iter().position(|c| &c.0 == b"IDAT") {
